@@ -208,7 +208,7 @@ void Search::go()
         _best_move = _root_moves.front();
 
     ASSERT(_best_move != NO_MOVE);
-    VERIF_POINT(BEFORE_BESTMOVE, this, &stop_search, &_position, _best_move, 0);
+    VERIF_POINT(BEFORE_BESTMOVE, this, &stop_search, &_position, _best_move, _search_time);
     sync_cout << "bestmove " << _position.uci(_best_move) << sync_endl;
     VERIF_POINT(AFTER_BESTMOVE, this, nullptr, nullptr, 0, 0);  // no member access: the GUI may already have replaced this Search
 }
@@ -281,7 +281,7 @@ void Search::iter_search()
     while (!stop_search)
     {
         _current_depth++;
-        VERIF_POINT(ITER_BEGIN, this, &stop_search, &_position, _current_depth, 0);
+        VERIF_POINT(ITER_BEGIN, this, &stop_search, &_position, _current_depth, _search_time);
         VERIF_BOUND(_current_depth, MAX_DEPTH + 1, "search.cpp:previous_moves");
 
         _stats = SearchStats{};
@@ -339,7 +339,7 @@ void Search::iter_search()
             _best_move = realInfo->_pv_list[0];
         }
         previous_moves[_current_depth] = _best_move;
-        VERIF_POINT(ITER_END, this, &stop_search, &_position, _current_depth, 0);
+        VERIF_POINT(ITER_END, this, &stop_search, &_position, _current_depth, _search_time);
 
         if (is_mate(result)) break;
 
